@@ -1,7 +1,8 @@
 (* Model of emmet/markup/__init__.py (parse), snippets.py, utils.py, attributes.py,
-   implicit_tag.py, lorem (name handling only), addon/xsl.py, addon/label.py.
-   BEM (addon/bem.py) and markup.href are not modelled (DESIGN §7).  Definitions only. *)
-From Emmet Require Import lib.Base model.MarkupTokenizer model.MarkupParser model.MarkupConvert.
+   implicit_tag.py, lorem (name handling only), addon/xsl.py, addon/label.py; addon/bem.py is
+   model/MarkupBem.v and is hooked into transform_node here.
+   markup.href is not modelled (DESIGN §7).  Definitions only. *)
+From Emmet Require Import lib.Base model.MarkupTokenizer model.MarkupParser model.MarkupConvert model.MarkupBem.
 From Emmet Require Import gen.GenImplicit.
 
 (* the part of Config the markup pipeline reads *)
@@ -16,7 +17,14 @@ Record mconfig := mkMConfig {
   mc_context_name : option str;        (* config.context['name'] *)
   mc_inline : list str;                (* options['inlineElements'] *)
   mc_reverse_attrs : bool;             (* options['output.reverseAttributes'] *)
-  mc_href : bool }.
+  mc_href : bool;
+  mc_bem : bool;                       (* options['bem.enabled'] *)
+  mc_bem_element : str;                (* options['bem.element'] *)
+  mc_bem_modifier : str;               (* options['bem.modifier'] *)
+  mc_context_class : option str }.     (* None when config.context is None, else
+                                          config.context.get('attributes', {}).get('class', '') (or '') *)
+Definition bem_cfg_of (cfg : mconfig) : bemcfg :=
+  mkBemCfg (mc_bem_element cfg) (mc_bem_modifier cfg) (mc_context_class cfg).
 
 (* abbreviation(str, params): tokenize + parse + convert.
    Errors: scanner error (pos) / token error (pos option). *)
@@ -234,7 +242,8 @@ Fixpoint has_input (n : anode) : bool :=
          end) ch
   end.
 
-(* transform(node, ancestors, config) for one node, children untouched.
+(* transform(node, ancestors, config) for one node, children untouched: everything before the
+   BEM addon (implicit_tag, attributes, lorem, xsl, label).
    [parent_name] = name of the closest ancestor node after ITS transformation (None at top
    level), [top] = the node is a direct child of the Abbreviation.
    Returns the node and whether the label addon found an input below it. *)
@@ -250,7 +259,7 @@ Definition implicit_name_of (cfg : mconfig) (parent_name : option (option str)) 
   | None => if is_inline_name cfg pn then [115;112;97;110]%N (* span *) else [100;105;118]%N (* div *)
   end.
 
-Definition transform_node (cfg : mconfig) (parent_name : option (option str)) (top : bool) (n : anode)
+Definition transform_node_pre (cfg : mconfig) (parent_name : option (option str)) (top : bool) (n : anode)
   : anode * bool :=
   match n with
   | ANode nm v rp at_ ch sc =>
@@ -290,36 +299,53 @@ Definition transform_node (cfg : mconfig) (parent_name : option (option str)) (t
       (ANode nm2 v2 rp (if found then drop_empty_named s_for at3 else at3) ch sc, found)
   end.
 
+(* transform(node, ancestors, config): the steps above, then `if options['bem.enabled']: bem(..)`.
+   [anc] = ancestors[1:] as path entries (attributes after their own transformation + their entry in
+   the module cache of the BEM addon).  Returns the node, the label flag and the path
+   ancestors[1:] + [node] (cache entries as the call leaves them). *)
+Definition transform_node (cfg : mconfig) (parent_name : option (option str)) (top : bool)
+           (anc : list pnode) (n : anode) : res (anode * bool * list pnode) :=
+  let '(n1, found) := transform_node_pre cfg parent_name top n in
+  if mc_bem cfg then
+    let* (n2, path) := bem (bem_cfg_of cfg) anc n1 in
+    Ok (n2, found, path)
+  else Ok (n1, found, anc ++ [mkP (an_attrs n1) None]).
+
 (* walk(abbr, transform, config): preorder, parents before children.  [pending] = an enclosing
    label found its input and that input has not been reached yet: the first node named
-   input/textarea (original name) loses its empty `id` attributes before its own transform. *)
+   input/textarea (original name) loses its empty `id` attributes before its own transform.
+   [anc] = the ancestors as path entries; the result carries them back with the cache entries the
+   subtree created (a sibling subtree sees them). *)
 Fixpoint transform_tree (cfg : mconfig) (parent_name : option (option str)) (top : bool) (pending : bool)
-         (n : anode) {struct n} : anode * bool :=
+         (anc : list pnode) (n : anode) {struct n} : res (anode * bool * list pnode) :=
   match n with
   | ANode nm v rp at_ ch sc =>
       let hit := pending && is_input_name nm in
       let n0 := if hit then ANode nm v rp (drop_empty_named s_id at_) ch sc else n in
-      let '(n1, found) := transform_node cfg parent_name top n0 in
+      let* (n1, found, path) := transform_node cfg parent_name top anc n0 in
       let pending1 := (pending && negb hit) || found in
       match n1 with
       | ANode nm1 v1 rp1 at1 _ sc1 =>
-          let '(ch', pending2) :=
-            (fix go (l : list anode) (pd : bool) : list anode * bool :=
+          let* (ch', pending2, path2) :=
+            (fix go (l : list anode) (pd : bool) (pth : list pnode) : res (list anode * bool * list pnode) :=
                match l with
-               | [] => ([], pd)
+               | [] => Ok ([], pd, pth)
                | c :: r =>
-                   let '(c', pd1) := transform_tree cfg (Some nm1) false pd c in
-                   let '(r', pd2) := go r pd1 in
-                   (c' :: r', pd2)
-               end) ch pending1 in
-          (ANode nm1 v1 rp1 at1 ch' sc1, pending2)
+                   let* (c', pd1, pth1) := transform_tree cfg (Some nm1) false pd pth c in
+                   let* (r', pd2, pth2) := go r pd1 pth1 in
+                   Ok (c' :: r', pd2, pth2)
+               end) ch pending1 path in
+          Ok (ANode nm1 v1 rp1 at1 ch' sc1, pending2, firstn (length anc) path2)      (* ancestors.pop() *)
       end
   end.
 
-Fixpoint transform_list (cfg : mconfig) (l : list anode) : list anode :=
+Fixpoint transform_list (cfg : mconfig) (l : list anode) : res (list anode) :=
   match l with
-  | [] => []
-  | c :: r => fst (transform_tree cfg None true false c) :: transform_list cfg r
+  | [] => Ok []
+  | c :: r =>
+      let* (c', _, _) := transform_tree cfg None true false [] c in
+      let* r' := transform_list cfg r in
+      Ok (c' :: r')
   end.
 
 (* markup.parse(abbr, config): the children of the final Abbreviation *)
@@ -327,4 +353,4 @@ Definition markup_parse (cfg : mconfig) (abbr : str) : res (list anode) :=
   let env := mkCenv (mc_text cfg) (mc_variables cfg) (mc_href cfg) in
   let* tree := parse_abbr (mc_jsx cfg) env (mc_max_repeat cfg) abbr in
   let* resolved := walk_resolve (S (length (mc_snippets cfg))) cfg [] tree in
-  Ok (transform_list cfg resolved).
+  transform_list cfg resolved.
